@@ -202,9 +202,11 @@ func (f *Func) redefineInputs(opts ...Arg) (reflect.Type, error) {
 			}
 			fieldNames[fieldName] = struct{}{}
 
+			// The name goes into the tag: it need not be a valid Go identifier.
 			sf = append(sf, reflect.StructField{
-				Name: strings.ToUpper(v.Name),
+				Name: fmt.Sprintf("V__Name_%d", len(sf)),
 				Type: v.Type,
+				Tag:  reflect.StructTag(fmt.Sprintf(`argmapper:"%s"`, v.Name)),
 			})
 
 		case *typedArgVertex:
